@@ -77,7 +77,9 @@ class BasicBlock:
                     temporaries[i],
                     lambdify(
                         self._arglist + temporaries[:i],
-                        common.evaluate_large_integers(expr),
+                        common.evaluate_named_constants(
+                            common.evaluate_large_integers(expr)
+                        ),
                         modules=self._config.python_modules,
                         cse=False,
                     ),
@@ -87,10 +89,12 @@ class BasicBlock:
         self._body = [
             lambdify(
                 self._arglist + temporaries,
-                common.evaluate_large_integers(
-                    simplify(expr)
-                    if self._config.common_subexpression_elimination
-                    else expr
+                common.evaluate_named_constants(
+                    common.evaluate_large_integers(
+                        simplify(expr)
+                        if self._config.common_subexpression_elimination
+                        else expr
+                    )
                 ),
                 modules=self._config.python_modules,
                 cse=False,
